@@ -54,6 +54,7 @@ type c33Plan struct {
 	Faults    map[c33FaultKey]string
 	Lfs       map[[2]int64]bool   // (partition, offset) whose value is an LFS envelope (iceberg only)
 	LfsFaults map[[3]int64]string // (cycle, partition, offset) -> kind of error the blob fetch returns (see c33LfsErr)
+	SinkCall  map[[2]int]bool     // (cycle, k): the k-th sink.Write call of that polling cycle fails (whatever it carries)
 	RenewFail map[int]bool        // ordinal (1-based) of the RenewLease calls that fail
 	Blocked   map[[2]int]bool     // (cycle, partition): ClaimLease refused, the lease is held by another worker
 	Excluded  map[string]bool     // known-finding ids this plan was steered away from
@@ -96,6 +97,8 @@ func c33LfsErr(kind string) error {
 // weighted choices (rapid favours early entries a little, hence "none" first)
 var (
 	c33CycleFaults = []string{"none", "none", "none", "none", "none", "none", "none", "none", "list", "claim", "none", "none"}
+	c33SinkCallChoice = []int{0, 0, 2, 1, 2, 3, 0, 2}
+	c33BigChoice   = []string{"normal", "normal", "normal", "normal", "normal", "normal", "normal", "normal", "normal", "normal", "normal", "normal", "normal", "normal", "normal", "normal", "normal", "normal", "normal", "large", "normal", "normal", "normal", "normal"}
 	c33SegFaults   = []string{"none", "none", "none", "none", "none", "none", "decode", "sink", "load", "commit-before", "commit-after", "sink", "decode", "none", "none", "none"}
 )
 
@@ -103,7 +106,7 @@ func c33SegKey(part int32, base int64) string { return fmt.Sprintf("p%d/seg-%020
 
 func c33NewPlan(mod, store string) c33Plan {
 	return c33Plan{Mod: mod, Store: store, Faults: map[c33FaultKey]string{}, Lfs: map[[2]int64]bool{}, LfsFaults: map[[3]int64]string{},
-		RenewFail: map[int]bool{}, Blocked: map[[2]int]bool{}, Excluded: map[string]bool{}, Clean: 2}
+		SinkCall: map[[2]int]bool{}, RenewFail: map[int]bool{}, Blocked: map[[2]int]bool{}, Excluded: map[string]bool{}, Clean: 2}
 }
 
 // c33GenPlan draws a plan. withLfs enables LFS envelopes (iceberg).
@@ -115,10 +118,21 @@ func c33GenPlan(t *rapid.T, mod string, withLfs bool) c33Plan {
 		p.Excluded[c33NoopID(mod)] = true
 	}
 	p.StickyF1 = vfkit.Known(c33SkipID(mod))
+	// a few cases per run carry one LARGE segment, sized just above the row counts at which a
+	// processor might split the hand-over to the sink (1000, 1024, 2048, 4096, 5000, 8192, 10000)
+	big := rapid.SampledFrom(c33BigChoice).Draw(t, "large-segment") == "large"
 	ns := rapid.IntRange(1, 5).Draw(t, "segments")
+	bigAt := -1
+	if big {
+		ns = rapid.IntRange(1, 3).Draw(t, "segments-large-case")
+		bigAt = rapid.IntRange(0, ns-1).Draw(t, "large-at")
+	}
 	off := p.Start
 	for i := 0; i < ns; i++ {
 		n := rapid.IntRange(1, 4).Draw(t, "records")
+		if i == bigAt {
+			n = rapid.SampledFrom([]int{1001, 1025, 2049, 4097, 5001, 5001, 8193, 10001, 12000}).Draw(t, "large-records")
+		}
 		p.Segs = append(p.Segs, c33Seg{Part: c33PartA, Base: off, N: n, Key: c33SegKey(c33PartA, off)})
 		off += int64(n)
 	}
@@ -146,6 +160,9 @@ func c33GenPlan(t *rapid.T, mod string, withLfs bool) c33Plan {
 	lfsMode := withLfs && rapid.Bool().Draw(t, "lfs")
 	if lfsMode {
 		for _, s := range p.Segs {
+			if s.N > 8 {
+				continue
+			}
 			for o := s.Base; o < s.Base+int64(s.N); o++ {
 				if rapid.IntRange(0, 3).Draw(t, "is-lfs") == 0 {
 					p.Lfs[[2]int64{int64(s.Part), o}] = true
@@ -189,6 +206,10 @@ func c33GenPlan(t *rapid.T, mod string, withLfs bool) c33Plan {
 		if vis < ns {
 			vis += rapid.IntRange(0, ns-vis).Draw(t, "newly-completed")
 		}
+		// a sink failure addressed by call number within the cycle, not by segment
+		if k := rapid.SampledFrom(c33SinkCallChoice).Draw(t, "sink-call-fails"); k > 0 && (big || rapid.IntRange(0, 3).Draw(t, "sink-call-any") == 0) {
+			p.SinkCall[[2]int{c, k}] = true
+		}
 		if lease != "none" {
 			for _, part := range []int32{c33PartA, c33PartB} {
 				if rapid.IntRange(0, 7).Draw(t, "claim-refused") == 0 {
@@ -229,6 +250,7 @@ type c33World struct {
 	visible      []int // segment indices listed in the current cycle
 	loadCalls    int
 	claimCalls   int
+	sinkCalls    int
 	renewCalls   int
 	failedCycle  bool // a segment-level failure happened in this cycle
 	firstFailSeg int
@@ -293,7 +315,7 @@ func (w *c33World) OnList() ([]int, error) {
 	w.mu.Lock()
 	defer w.mu.Unlock()
 	w.cycle++
-	w.loadCalls, w.claimCalls, w.failedCycle, w.firstFailSeg = 0, 0, false, -1
+	w.loadCalls, w.claimCalls, w.sinkCalls, w.failedCycle, w.firstFailSeg = 0, 0, 0, false, -1
 	w.visible = nil
 	if w.fault(-1, "list") != "" {
 		w.note("list-fail")
@@ -447,8 +469,13 @@ func (w *c33World) OnSink(part int32, offsets []int64) error {
 		return nil
 	}
 	seg := w.segIndex(part, offsets[0])
+	w.sinkCalls++
 	if w.fault(seg, "sink") != "" {
 		w.segFailed(seg, "sink")
+		return errC33Injected
+	}
+	if w.cycle < w.p.Cycles && w.p.SinkCall[[2]int{w.cycle, w.sinkCalls}] {
+		w.segFailed(seg, fmt.Sprintf("sink-call#%d", w.sinkCalls))
 		return errC33Injected
 	}
 	for _, o := range offsets {
@@ -492,13 +519,33 @@ func (w *c33World) OnCommit(part int32, offset int64) error {
 		}
 	}
 	if len(missing) > 0 {
-		w.violations = append(w.violations, fmt.Sprintf("cycle %d: checkpoint of partition %d committed at offset %d but offsets [%s] of that partition were never part of a successful sink write", w.cycle, part, offset, strings.Join(missing, ",")))
+		w.violations = append(w.violations, fmt.Sprintf("cycle %d: checkpoint of partition %d committed at offset %d but offsets [%s] of that partition were never part of a successful sink write", w.cycle, part, offset, c33Short(missing)))
 	}
 	if kind == "after" {
 		w.note("commit-fail-after(p%d:%d)", part, offset)
 		return errC33Injected
 	}
 	return nil
+}
+
+func c33Short(xs []string) string {
+	if len(xs) > 8 {
+		return strings.Join(xs[:8], ",") + fmt.Sprintf(",... (%d offsets)", len(xs))
+	}
+	return strings.Join(xs, ",")
+}
+
+// OnListReplay starts a polling cycle whose listing result was produced elsewhere (a real
+// lister run against a fake object store outside the bubble): idx are the listed segments.
+func (w *c33World) OnListReplay(idx []int, failed bool) {
+	w.mu.Lock()
+	defer w.mu.Unlock()
+	w.cycle++
+	w.loadCalls, w.claimCalls, w.sinkCalls, w.failedCycle, w.firstFailSeg = 0, 0, 0, false, -1
+	w.visible = append([]int(nil), idx...)
+	if failed {
+		w.note("list-fail")
+	}
 }
 
 func (p *c33Plan) leaseFaults() bool { return len(p.RenewFail)+len(p.Blocked) > 0 }
@@ -531,7 +578,7 @@ func (w *c33World) finish() []string {
 		}
 	}
 	if len(missing) > 0 {
-		out = append(out, fmt.Sprintf("after %d fault-free cycles offsets [%s] of completed segments of the leased partition %d were never written to the sink (store=%s)", w.p.Clean, strings.Join(missing, ","), held, w.p.Store))
+		out = append(out, fmt.Sprintf("after %d fault-free cycles offsets [%s] of completed segments of the leased partition %d were never written to the sink (store=%s)", w.p.Clean, c33Short(missing), held, w.p.Store))
 	}
 	return out
 }
@@ -546,6 +593,9 @@ func (p *c33Plan) describe() map[string]any {
 	}
 	for k := range p.RenewFail {
 		fs = append(fs, fmt.Sprintf("renew#%d", k))
+	}
+	for k := range p.SinkCall {
+		fs = append(fs, fmt.Sprintf("c%d/sink-call#%d", k[0], k[1]))
 	}
 	for k := range p.Blocked {
 		fs = append(fs, fmt.Sprintf("c%d/claim-refused-p%d", k[0], k[1]))
@@ -597,7 +647,7 @@ func c33Check(rt *rapid.T, t *testing.T, st *vfkit.Stats, p c33Plan, exec func(t
 		st.ExcludedCase(c33SkipID(p.Mod))
 	}
 	st.Class("store:" + p.Store)
-	if len(p.Faults)+len(p.LfsFaults)+len(p.RenewFail)+len(p.Blocked) == 0 {
+	if len(p.Faults)+len(p.LfsFaults)+len(p.RenewFail)+len(p.Blocked)+len(p.SinkCall) == 0 {
 		st.Class("no-faults")
 	}
 	for k, v := range p.Faults {
@@ -612,6 +662,15 @@ func c33Check(rt *rapid.T, t *testing.T, st *vfkit.Stats, p c33Plan, exec func(t
 	}
 	if len(p.RenewFail) > 0 {
 		st.Class("fault:renew")
+	}
+	if len(p.SinkCall) > 0 {
+		st.Class("fault:sink-call-k")
+	}
+	for _, sg := range p.Segs {
+		if sg.N > 1000 {
+			st.Class("large-segment")
+			break
+		}
 	}
 	if len(p.Blocked) > 0 {
 		st.Class("fault:claim-refused")
